@@ -97,6 +97,11 @@ func init() {
 		"Early registrations (fourth PRNG), half of the cases: before its detailed discovery reply is processed a peer subscribes (2 in 3) / binds (the first that draws 1 in 3) with its NodeManagement feature [0]/0 to the local NodeManagement feature, client address with or without device part; one in four of these entries is given up again in the history (must be granted); " +
 		"they are entries of that connection (gone with it, one removal event each; kept when another entity is removed); after the teardown the application adds a local entity: every surviving NodeManagement subscriber is notified once, nothing is written to a removed connection; " +
 		"in half of these cases two further connections never complete discovery (no device address known), each subscribed to the local NodeManagement feature; one is dropped after the main teardown: exactly its entry goes (one subscription and one device removal event, none for others), the other keeps its subscription and is notified. " +
+		"How an entity removal is announced (fifth PRNG): partial notify with device part (1/2), partial notify whose entityAddress lacks the device part (1/4), notify WITHOUT filter that restates the whole tree and omits the entities (1/4); a third of the removals take one or two FURTHER entities of the victim in the same datagram; " +
+		"half of the partial ones also list one or two still existing entities with lastStateChange modified / added (the known entity again, with its unchanged features) / absent (only behind the removed ones), before, between or behind the removed ones: all and only the entities announced as removed lose entries, flags and pending approvals, one entity removal event each, the others stay present and are served. " +
+		"A third of the entity removals are followed (after the horizon) by: the removed entity announced again, 1-3 new subscriptions, a binding, a local subscribe and bind, and a SECOND removal: exactly the new entries and flags go, exactly one removal event per new entry and one for the entity, everybody else is still served. " +
+		"NodeManagement dimension: the stack's own subscription of the local NodeManagement feature to every peer's (HasSubscriptionToRemote) is part of the flag universe (gone with the connection only); in a quarter of the cases peers subscribe their NodeManagement feature after discovery; after the teardown AddEntity and AddUseCaseSupport: every surviving NodeManagement subscriber gets exactly one notification each, a removed connection nothing. " +
+		"Every second concurrent case also overlaps the teardown with 6-25 SubscribeToRemote / BindToRemote calls of the application towards the other peer (at a disconnect released by an observer at RemoveRemoteDevice.beforeCleanup; every flag must be set afterwards) and 0-2 approval-requiring writes of the other peer (half of them approved by the application at once, unless the applied write would fan out to the victim): exactly one result, the success if the verdict was in before the timeout can have passed. " +
 		"expiry parts: case = 2 identically numbered peers, each bound to one approval feature, 1-3 writes of the victim and 0-2 of the other peer pending under a very short approval timeout (200 us - 2 ms); the disconnect (half of them held at the hook " +
 		"RemoveRemoteDevice.beforeCleanup) or the entity-removal notification is aimed at the expiry of those timers (offset within +-150 us); non-trivial if the expiry of at least one timer of the victim fell between start and return of the teardown call; " +
 		"distinct = distinct (kind, timeout, held at hook, #writes, how many of the victim's writes were answered before the teardown returned). " +
@@ -118,6 +123,9 @@ func init() {
 		"pending approvals of surviving peers are judged by their outcome (every such write receives exactly one result, the timeout error), because their timers legitimately fire during the case; state read immediately after the teardown is only judged where timers cannot change the verdict",
 		"concurrent messages of the other peer are reads, subscribes, unsubscribes and binds of free features: nothing that fans out to the removed peer, so an in-flight notification racing with the removal is not generated",
 		"events are observed at the core level (synchronous)",
+		"an entity listed WITHOUT lastStateChange in a partial removal notify is only placed behind the removed entities: whether the stack has to process a notify beyond (or up to) such an entry is not decided by the statement; the entity event a notify publishes for a known entity it lists as added is not judged",
+		"removal of [1] does not imply removal of its sub-entity [1,1] (each entity is announced on its own), as before",
+		"not overlapped with a teardown (not built): a second teardown of another peer running at the same time",
 		"window parts: the pause of the harness's event handler only places the other peers' requests; its expiry is never judged, and no verdict depends on whether a request was served during or after the cleanup. All requests concern pairs the teardown does not touch and server features the victim does not hold, so each of them must be acknowledged in every order",
 		"repeated announcements carry exactly the content of the first announcement (same entities, features, types, roles), so the announced tree - and with it everything the statement quantifies over - is unchanged; nothing is judged at the repeated announcement itself",
 		"a removal event for a registry entry whose server or client feature no longer resolves at the teardown cannot name that feature; the statement demands the event, not its payload, so such an event is accepted with the unresolvable part empty or filled",
@@ -364,10 +372,16 @@ func (cw *c10World) readRegs() map[string]int {
 }
 
 func (cw *c10World) flagKey(f c10Flag) string {
+	if f.kind == "nmsub" {
+		return fmt.Sprintf("%-5s local NodeManagement [0]/0 (the stack's own subscription at discovery) -> %s", f.kind, f.remote.String())
+	}
 	return fmt.Sprintf("%-5s local client %d -> %s", f.kind, f.lc, f.remote.String())
 }
 
 func (cw *c10World) readFlag(f c10Flag) bool {
+	if f.kind == "nmsub" {
+		return cw.w.Local.FeatureByAddress(rig.LNM).HasSubscriptionToRemote(f.remote)
+	}
 	if f.kind == "lsub" {
 		return cw.cli[f.lc].HasSubscriptionToRemote(f.remote)
 	}
@@ -560,6 +574,9 @@ func c10Case(c *rig.Ctx) {
 	// another entity of the peer is removed.
 	aux3 := c10Aux(c, 30)
 	early := aux3.Intn(2) == 0
+	aux6 := c10Aux(c, 60)
+	nmLate := aux6.Intn(2) == 0
+	nmLateSubs := 0
 	var earlyOps, earlyUndo []c10Op
 	for i := 0; i < 3; i++ {
 		p := w.AddPeer(i)
@@ -590,6 +607,22 @@ func c10Case(c *rig.Ctx) {
 		p.Announce(tree)
 		p.Tap.Take()
 		cw.log[i] = nil
+		// the stack itself subscribes its NodeManagement feature to the peer's when the discovery reply arrives: client-side
+		// bookkeeping that refers to that DEVICE (gone with the connection, kept when one of its entities is removed)
+		if f := (c10Flag{kind: "nmsub", lc: -1, remote: p.NM(), peer: i, ent: "[0]"}); cw.readFlag(f) {
+			cw.univ[cw.flagKey(f)] = f
+			cw.flags[cw.flagKey(f)] = c10Ent{peer: i, ent: "[0]"}
+		} else {
+			c.Count("peers_the_stack_did_not_subscribe_its_NodeManagement_feature_to", 1)
+		}
+		// cases without early registrations, every second of them (sixth PRNG): two peers in three subscribe their
+		// NodeManagement feature to the local one the ordinary way, after discovery
+		if !early && nmLate && aux6.Intn(3) > 0 {
+			cw.exec(c10Op{kind: "sub", peer: i, ent: []uint{0}, srv: c10NM}, "setup")
+			nmLateSubs++
+			p.Tap.Take()
+			cw.log[i] = nil
+		}
 	}
 	if cw.hard {
 		return
@@ -806,7 +839,65 @@ func c10Case(c *rig.Ctx) {
 	kind := []string{"disconnect", "remove[1]", "remove[1,1]"}[r.Intn(3)]
 	remEnt := map[string]string{"disconnect": "", "remove[1]": "[1]", "remove[1,1]": "[1,1]"}[kind]
 	conc := r.Intn(3) == 0 || c.Race
-	hit := func(en c10Ent) bool { return en.peer == x && (remEnt == "" || en.ent == remEnt) }
+	// ---- how the removal is announced (fifth PRNG):
+	//   remForm   "partial": partial notify, entity address with device part (what every case used to do) |
+	//             "partial-nodev": partial notify whose entityAddress has NO device part (what devices in the field send) |
+	//             "full": a notify WITHOUT filter that restates the device's whole tree and simply omits the removed entities;
+	//   extraRem  one or two FURTHER entities of the victim removed by the same datagram (a third of the entity removals);
+	//   mixed     (partial forms, half of them) the same notify also lists one or two entities that still exist, with
+	//             lastStateChange modified / added (the known entity announced again with its unchanged features) / absent
+	//             (absent only behind the removed ones), before, between or behind the removed ones.
+	// The statement: all and ONLY what refers to an entity announced as removed disappears; the entities listed in another
+	// state keep everything and continue to be served.
+	aux5 := c10Aux(c, 50)
+	type c10Listed struct {
+		ent   []uint
+		state string // removed | modified | added | none
+		feats bool   // modified: the entity's features are listed as well
+	}
+	extraRem := map[string]bool{}
+	remForm := "partial"
+	var listed []c10Listed
+	nMixed := 0
+	if kind != "disconnect" {
+		switch aux5.Intn(4) {
+		case 0:
+			remForm = "partial-nodev"
+		case 1:
+			remForm = "full"
+		}
+		var rest [][]uint
+		for _, i := range aux5.Perm(len(c10Ents)) {
+			if c06Key(c10Ents[i]) != remEnt {
+				rest = append(rest, c10Ents[i])
+			}
+		}
+		if aux5.Intn(3) == 0 {
+			n := 1 + aux5.Intn(2)
+			for _, ea := range rest[:n] {
+				extraRem[c06Key(ea)] = true
+			}
+			rest = rest[n:]
+		}
+		listed = append(listed, c10Listed{ent: [][]uint{{1}, {1, 1}}[map[string]int{"[1]": 0, "[1,1]": 1}[remEnt]], state: "removed"})
+		for _, ea := range c10Ents {
+			if extraRem[c06Key(ea)] {
+				listed = append(listed, c10Listed{ent: ea, state: "removed"})
+			}
+		}
+		if remForm != "full" && len(rest) > 0 && aux5.Intn(2) == 0 {
+			for _, ea := range rest[:1+aux5.Intn(len(rest))] {
+				listed = append(listed, c10Listed{ent: ea, state: []string{"modified", "added", "none"}[aux5.Intn(3)], feats: aux5.Intn(2) == 0})
+				nMixed++
+			}
+		}
+		aux5.Shuffle(len(listed), func(i, j int) { listed[i], listed[j] = listed[j], listed[i] })
+		// an entity without lastStateChange only behind everything else (whether a notify is to be processed up to, or
+		// beyond, an entry without state change is not decided by the statement)
+		sort.SliceStable(listed, func(i, j int) bool { return listed[i].state != "none" && listed[j].state == "none" })
+	}
+	isRem := func(ent string) bool { return ent == remEnt || extraRem[ent] }
+	hit := func(en c10Ent) bool { return en.peer == x && (remEnt == "" || isRem(en.ent)) }
 
 	// ---- what the application / the victim does right before the teardown (third PRNG), so that a feature of a
 	// registry entry no longer resolves when the teardown removes the entry:
@@ -868,7 +959,11 @@ func c10Case(c *rig.Ctx) {
 	wantEv := map[string]int{}
 	nRegs, nFlags, nTwins := 0, 0, 0
 	nLocalGone, nClientGone := 0, 0 // entries of the victim whose server resp. client feature will not resolve at the teardown
+	xSubSrv := map[int]bool{} // local server features the victim's removed entries subscribe to
 	for k, en := range cw.regs {
+		if hit(en) && en.kind == "sub" {
+			xSubSrv[en.srv] = true
+		}
 		if hit(en) {
 			wantEv[evKey(map[string]string{"sub": "Subscription", "bind": "Binding"}[en.kind], "remove", en.ent, int(en.fid), cw.sf(en.srv).Address().String())]++
 			delete(cw.regs, k)
@@ -882,7 +977,7 @@ func c10Case(c *rig.Ctx) {
 		}
 	}
 	for _, en := range cw.regs { // same numbers on another peer
-		if en.peer != x && (remEnt == "" || en.ent == remEnt) {
+		if en.peer != x && (remEnt == "" || isRem(en.ent)) {
 			nTwins++
 		}
 	}
@@ -896,11 +991,14 @@ func c10Case(c *rig.Ctx) {
 		wantEv["Device/remove"] = 1
 	} else {
 		wantEv["Entity/remove ent="+remEnt] = 1
+		for k := range extraRem {
+			wantEv["Entity/remove ent="+k] = 1
+		}
 	}
 	var wX, wXent, wOther []c10Write // writes of X, of the removed entity of X, of everybody else
 	for _, wr := range writes {
 		switch {
-		case wr.peer == x && (remEnt == "" || c06Key(wr.ent) == remEnt):
+		case wr.peer == x && (remEnt == "" || isRem(c06Key(wr.ent))):
 			wXent = append(wXent, wr)
 			wX = append(wX, wr)
 		case wr.peer == x:
@@ -920,6 +1018,89 @@ func c10Case(c *rig.Ctx) {
 		post func()
 	}
 	var yops []yop
+	// what else overlaps the teardown (fifth PRNG, every second concurrent case): the application lets its client
+	// features subscribe / bind to server features of the OTHER peer y (a burst of calls; every flag must be set
+	// afterwards, whatever the clean-up of x's flags does at the same time), and y sends a write that needs approval to
+	// a server feature it holds a binding on (only features with ONE, silent, callback), which the application then
+	// approves at once (1 in 2) or leaves to its timeout: exactly one outcome, the success if the verdict was in before
+	// the timeout can have passed.
+	type c10YWrite struct {
+		mc       model.MsgCounterType
+		srv      int
+		verdict  bool
+		inTime   bool
+		approved bool
+		sent     time.Time
+	}
+	var yWrites []*c10YWrite
+	var yMu sync.Mutex
+	var localCalls []func()
+	var localDescs []string
+	atCleanup := make(chan struct{})
+	var atCleanupOnce sync.Once
+	var tornDown atomic.Bool
+	var repeatedLocal atomic.Int64
+	overlapMore := conc && aux5.Intn(2) == 0
+	if overlapMore {
+		for n := 6 + aux5.Intn(20); n > 0; n-- {
+			ea := c10Ents[aux5.Intn(len(c10Ents))]
+			l := aux5.Intn(len(cw.cli))
+			kd := []string{"lsub", "lbind"}[aux5.Intn(2)]
+			ra := rig.FA(Y.Addr, ea, uint(7+l))
+			f := c10Flag{kind: kd, lc: l, remote: ra, peer: y, ent: c06Key(ea)}
+			cw.univ[cw.flagKey(f)] = f
+			cw.flags[cw.flagKey(f)] = c10Ent{peer: y, ent: c06Key(ea)}
+			call := func() {
+				if kd == "lsub" {
+					_, _ = cw.cli[l].SubscribeToRemote(ra)
+				} else {
+					_, _ = cw.cli[l].BindToRemote(ra)
+				}
+			}
+			localCalls = append(localCalls, call)
+			localDescs = append(localDescs, fmt.Sprintf("local client %d %s -> peer%d %s/%d", l, kd, y, c06Key(ea), 7+l))
+		}
+		var bs []c10Ent
+		for _, b := range boundBy(y, true) {
+			if b.srv != 1 { // server 1 has a second, approving callback: its received-approval records are judged elsewhere
+				bs = append(bs, b)
+			}
+		}
+		for n := aux5.Intn(3); n > 0 && len(bs) > 0; n-- {
+			b := bs[aux5.Intn(len(bs))]
+			fn := writeFn[b.srv]
+			yw := &c10YWrite{srv: b.srv, verdict: aux5.Intn(2) == 0}
+			if xSubSrv[b.srv] {
+				yw.verdict = false // an applied write would fan out to the peer that is being removed (see the assumptions)
+			}
+			yWrites = append(yWrites, yw)
+			yops = append(yops, yop{desc: fmt.Sprintf("peer%d writes %s from %s/%d to local server %d (needs approval; the application approves at once: %v)", y, fn.Fn, b.ent, b.fid, b.srv, yw.verdict), run: func() (model.MsgCounterType, string) {
+				sent := time.Now()
+				mc := Y.Send(model.CmdClassifierTypeWrite, rig.FA(Y.Addr, entOf(b.ent), b.fid), cw.srv[b.srv].Address(), true, nil, rig.CmdFor(fn.Fn, reflect.New(fn.T).Interface()))
+				yMu.Lock()
+				yw.mc, yw.sent = mc, sent
+				yMu.Unlock()
+				if yw.verdict {
+					var m *api.Message
+					rig.WaitFor(5*time.Second, func() bool {
+						approveMu.Lock()
+						defer approveMu.Unlock()
+						m = captured[mc]
+						return m != nil
+					})
+					if m != nil {
+						cw.srv[b.srv].ApproveOrDenyWrite(m, model.ErrorType{ErrorNumber: 0})
+						in := time.Since(sent) < c10Timeout // timers never fire early
+						yMu.Lock()
+						yw.approved, yw.inTime = true, in
+						yMu.Unlock()
+					}
+				}
+				return 0, ""
+			}})
+		}
+		aux5.Shuffle(len(yops), func(i, j int) { yops[i], yops[j] = yops[j], yops[i] })
+	}
 	if conc {
 		for n := 3 + r.Intn(4); n > 0; n-- {
 			ea := c10Ents[r.Intn(len(c10Ents))]
@@ -980,7 +1161,97 @@ func c10Case(c *rig.Ctx) {
 			removedList, unknownPos = [][]uint{entOf(remEnt), {9}}, "after"
 		}
 	}
+	if remForm == "full" {
+		unknownPos = ""
+	}
+	_ = removedList // (the datagram is assembled below)
 	cw.trace = append(cw.trace, fmt.Sprintf("TEARDOWN peer%d %s (concurrent messages of peer%d: %d)", x, kind, y, len(yops)))
+	var tearData *model.NodeManagementDetailedDiscoveryDataType
+	if kind != "disconnect" {
+		featsOf := func(ea []uint) []model.NodeManagementDetailedDiscoveryFeatureInformationType {
+			var fs []rig.FS
+			for _, f := range cw.tree {
+				if c06Key(f.Ent) == c06Key(ea) {
+					fs = append(fs, f)
+				}
+			}
+			return X.Discovery(fs, nil, nil).FeatureInformation
+		}
+		var how []string
+		if remForm == "full" {
+			var fs []rig.FS
+			for _, f := range cw.tree {
+				if !isRem(c06Key(f.Ent)) {
+					fs = append(fs, f)
+				}
+			}
+			tearData = X.Discovery(fs, nil, nil)
+			how = append(how, "a notify WITHOUT filter restates the whole tree of the device and omits the entities")
+			for _, l := range listed {
+				how = append(how, c06Key(l.ent))
+			}
+		} else {
+			tearData = X.Discovery(nil, nil, nil)
+			dev := X.Addr
+			if remForm == "partial-nodev" {
+				dev = ""
+				how = append(how, "partial notify, entity addresses WITHOUT device part, entityInformation in this order:")
+			} else {
+				how = append(how, "partial notify, entityInformation in this order:")
+			}
+			add := func(l c10Listed) {
+				d := &model.NetworkManagementEntityDescriptionDataType{EntityAddress: rig.EA(dev, l.ent)}
+				switch l.state {
+				case "removed":
+					d.LastStateChange = util.Ptr(model.NetworkManagementStateChangeTypeRemoved)
+				case "modified":
+					d.LastStateChange = util.Ptr(model.NetworkManagementStateChangeTypeModified)
+				case "added":
+					d.LastStateChange = util.Ptr(model.NetworkManagementStateChangeTypeAdded)
+					d.EntityAddress = rig.EA(X.Addr, l.ent)
+				}
+				if l.state != "removed" {
+					et := rig.EntityTypeFor(l.ent)
+					d.EntityType = &et
+					d.Description = util.Ptr(model.DescriptionType("entity " + fmt.Sprint(l.ent)))
+					if l.state == "added" || l.feats {
+						tearData.FeatureInformation = append(tearData.FeatureInformation, featsOf(l.ent)...)
+					}
+				}
+				tearData.EntityInformation = append(tearData.EntityInformation, model.NodeManagementDetailedDiscoveryEntityInformationType{Description: d})
+				st := l.state
+				if st == "none" {
+					st = "no lastStateChange"
+				}
+				if l.state != "removed" && (l.state == "added" || l.feats) {
+					st += " with its (unchanged) features"
+				}
+				how = append(how, fmt.Sprintf("%s %s;", c06Key(l.ent), st))
+			}
+			if unknownPos == "before" {
+				add(c10Listed{ent: []uint{9}, state: "removed"})
+			}
+			for _, l := range listed {
+				add(l)
+			}
+			if unknownPos == "after" {
+				// (still in front of an entity without lastStateChange)
+				add(c10Listed{ent: []uint{9}, state: "removed"})
+				ei := tearData.EntityInformation
+				for i := len(ei) - 1; i > 0 && ei[i-1].Description.LastStateChange == nil; i-- {
+					ei[i], ei[i-1] = ei[i-1], ei[i]
+				}
+			}
+		}
+		cw.trace = append(cw.trace, "  "+strings.Join(how, " "))
+		c.Count("entity_removals_announced_as:"+remForm, 1)
+		c.Count(fmt.Sprintf("entity_removals_of_%d_entities_in_one_datagram", 1+len(extraRem)), 1)
+		for _, l := range listed {
+			if l.state != "removed" {
+				c.Count("removal_notifies_that_also_list_a_still_existing_entity_as:"+l.state, 1)
+			}
+		}
+	}
 	if unknownPos != "" {
 		cw.trace = append(cw.trace, fmt.Sprintf("  the removal notify also lists the never announced entity [9] as removed, %s the known one", unknownPos))
 		c.Count("removal_notifies_listing_an_unknown_entity_"+unknownPos+"_the_known_one", 1)
@@ -1063,6 +1334,7 @@ func c10Case(c *rig.Ctx) {
 	if conc {
 		hooks = rig.InstallHooks()
 		hooks.Jitter("RemoveRemoteDevice.beforeCleanup", r.Int63(), 2*time.Millisecond)
+		hooks.On("RemoveRemoteDevice.beforeCleanup", func(any) { atCleanupOnce.Do(func() { close(atCleanup) }) })
 	}
 	var yres []string
 	var ywg sync.WaitGroup
@@ -1076,17 +1348,39 @@ func c10Case(c *rig.Ctx) {
 			}
 		}()
 	}
+	if overlapMore && len(localCalls) > 0 {
+		// the application's subscribe / bind calls towards peer y, each distinct call once: at a disconnect they start when
+		// the teardown has reached the clean-up of the local features' bookkeeping (observer at the hook), otherwise at once
+		ywg.Add(1)
+		go func() {
+			defer ywg.Done()
+			if kind == "disconnect" {
+				select {
+				case <-atCleanup:
+				case <-time.After(10 * time.Second):
+				}
+			}
+			for _, f := range localCalls {
+				f()
+				if !tornDown.Load() {
+					repeatedLocal.Add(1)
+				}
+			}
+		}()
+	}
 	var seqReturn int64
 	var tReturn time.Time
 	okT, panicked := rig.Guard(30*time.Second, func() {
 		if kind == "disconnect" {
 			w.Local.RemoveRemoteDeviceConnection(X.Ski)
 		} else {
-			X.NotifyDiscovery(true, X.Discovery(nil, nil, removedList))
+			X.NotifyDiscovery(remForm != "full", tearData)
 		}
 		seqReturn = rig.Seq()
 		tReturn = time.Now()
+		tornDown.Store(true)
 	})
+	tornDown.Store(true)
 	if panicked != "" {
 		cw.fail(kind+"/panic", "%s", panicked)
 		return
@@ -1136,8 +1430,14 @@ func c10Case(c *rig.Ctx) {
 		if w.Local.RemoteDeviceForSki(X.Ski) != X.RD || w.Local.RemoteDeviceForAddress(model.AddressDeviceType(X.Addr)) != X.RD {
 			cw.fail(when+"/device-no-longer-resolves", "peer%d only lost an entity but does not resolve any more", x)
 		}
-		if got := X.RD.Entity(spine.NewAddressEntityType(entOf(remEnt))); !rig.IsNil(got) {
-			cw.fail(when+"/entity-still-present", "entity %s of peer%d still present", remEnt, x)
+		for _, ea := range c10Ents {
+			got := X.RD.Entity(spine.NewAddressEntityType(ea))
+			switch {
+			case isRem(c06Key(ea)) && !rig.IsNil(got):
+				cw.fail(when+"/entity-still-present", "entity %s of peer%d still present (announced as removed: %s form, %d entities in the datagram)", c06Key(ea), x, remForm, 1+len(extraRem))
+			case !isRem(c06Key(ea)) && rig.IsNil(got):
+				cw.fail(when+"/other-entity-of-that-peer-removed", "entity %s of peer%d is gone; it was not announced as removed", c06Key(ea), x)
+			}
 		}
 		// pending approvals that refer to the removed entity: the tap is read first, so timeouts counted
 		// here happened before the state is read and the bound is sound
@@ -1264,6 +1564,11 @@ func c10Case(c *rig.Ctx) {
 		}
 		norm[k] += n
 	}
+	for _, l := range listed {
+		if l.state == "added" { // the known entity that the same notify announces again may publish its own event
+			delete(norm, "Entity/add ent="+c06Key(l.ent))
+		}
+	}
 	c.Events(int64(len(evList)))
 	for k, n := range wantEv {
 		if norm[k] < n {
@@ -1280,6 +1585,9 @@ func c10Case(c *rig.Ctx) {
 		}
 	}
 
+	for _, d := range localDescs {
+		cw.trace = append(cw.trace, "  (concurrently, application) "+d)
+	}
 	// ---- (4) the concurrent messages of peer y were served
 	if len(yres) > 0 {
 		outs := cw.take(y)
@@ -1288,6 +1596,9 @@ func c10Case(c *rig.Ctx) {
 			var mc uint64
 			fmt.Sscan(f[1], &mc)
 			cw.trace = append(cw.trace, "  (concurrently) "+f[0])
+			if f[2] == "" {
+				continue // judged by the flags (compare) resp. by the outcome of the write (horizon)
+			}
 			if got := rig.Classify(outs, model.MsgCounterType(mc)).String(); got != f[2] {
 				cw.fail(when+"/concurrent-message-of-other-peer-not-served", "%s: got %s, want %s", f[0], got, f[2])
 			}
@@ -1300,7 +1611,7 @@ func c10Case(c *rig.Ctx) {
 
 	// ---- (4a) cases with early registrations: the application adds a local entity after the teardown. Every peer that
 	// still holds a NodeManagement subscription is told exactly once, a removed connection is told nothing.
-	if early {
+	if early || nmLateSubs > 0 {
 		for pi := range cw.peers {
 			cw.take(pi)
 		}
@@ -1408,7 +1719,54 @@ func c10Case(c *rig.Ctx) {
 			}
 			c.Events(2)
 		}
-		c.Count("teardowns_with_NodeManagement_registrations_made_before_the_discovery_reply", 1)
+		// ... and announces a use case for it: the use case data of the local NodeManagement feature changes, every
+		// surviving NodeManagement subscriber is notified exactly once, a removed connection is told nothing
+		okU, pan := rig.Guard(30*time.Second, func() {
+			e3.AddUseCaseSupport(model.UseCaseActorTypeCEM, model.UseCaseNameTypeLimitationOfPowerConsumption, "1.0.0", "release", true, []model.UseCaseScenarioSupportType{1, 2})
+		})
+		if pan != "" {
+			cw.fail(when+"/panic", "AddUseCaseSupport after the teardown: %s", pan)
+			return
+		}
+		if !okU {
+			c.Inconclusive("AddUseCaseSupport did not return within 30s")
+			return
+		}
+		cw.trace = append(cw.trace, "the application adds a use case to the local entity [3]: NodeManagement subscribers are notified")
+		for pi := range cw.peers {
+			n := 0
+			outs := cw.take(pi)
+			for _, d := range outs {
+				if d.Header.CmdClassifier != nil && *d.Header.CmdClassifier == model.CmdClassifierTypeNotify && len(d.Payload.Cmd) > 0 && d.Payload.Cmd[0].NodeManagementUseCaseData != nil {
+					n++
+				}
+			}
+			_, sub := cw.regs[cw.regKey("sub", pi, []uint{0}, 0, c10NM)]
+			c.Events(1)
+			switch {
+			case kind == "disconnect" && pi == x:
+				if len(outs) > 0 {
+					cw.fail(when+"/use-case-notification-written-to-removed-connection", "%d datagrams were written to the connection of peer%d (removed) when the application added a use case: %s", len(outs), pi, rig.JS(outs[0]))
+				}
+			case sub && n != 1:
+				cw.fail(when+"/use-case-notification-to-surviving-NodeManagement-subscriber-count", "peer%d holds a NodeManagement subscription and received %d use case notifications", pi, n)
+			case !sub && n != 0:
+				cw.fail(when+"/use-case-notification-to-peer-without-NodeManagement-subscription", "peer%d holds no NodeManagement subscription and received %d use case notifications", pi, n)
+			}
+		}
+		if len(Z) == 2 {
+			if n := Z[0].Tap.Len(); n != 0 {
+				cw.fail(when+"/undiscovered-peer/use-case-notification-written-to-removed-connection", "%d datagrams were written to the removed connection of peer3 when the application added a use case", n)
+			}
+			Z[0].Tap.Take()
+			Z[1].Tap.Take()
+		}
+		if nmLateSubs > 0 {
+			c.Count("teardowns_with_NodeManagement_subscriptions_made_after_discovery", 1)
+		}
+		if early {
+			c.Count("teardowns_with_NodeManagement_registrations_made_before_the_discovery_reply", 1)
+		}
 		for _, o := range earlyOps {
 			if o.peer == x {
 				c.Count("teardowns_of_a_peer_with_a_NodeManagement_"+o.kind+"_made_before_its_discovery_reply:"+kind, 1)
@@ -1470,7 +1828,7 @@ func c10Case(c *rig.Ctx) {
 
 	// ---- (5) the rest of the history, for everything that survived
 	alive := func(pi int, ent []uint) bool {
-		return pi != x || (remEnt != "" && c06Key(ent) != remEnt)
+		return pi != x || (remEnt != "" && !isRem(c06Key(ent)))
 	}
 	for _, o := range ops[cut:] {
 		if o.kind == "reann" {
@@ -1528,6 +1886,9 @@ func c10Case(c *rig.Ctx) {
 				ea = c10Ents[i]
 				break
 			}
+		}
+		if ea == nil {
+			continue // every entity of that peer was announced as removed
 		}
 		cw.take(pi)
 		// read
@@ -1619,7 +1980,7 @@ func c10Case(c *rig.Ctx) {
 			}
 			res := rig.Classify(cw.logged(pi, 0), wr.mc)
 			c.Events(1)
-			removedEntityWrite := pi == x && c06Key(wr.ent) == remEnt
+			removedEntityWrite := pi == x && remEnt != "" && isRem(c06Key(wr.ent))
 			la, wasApproved := lateApproved[wr.mc]
 			switch {
 			case removedEntityWrite:
@@ -1653,7 +2014,185 @@ func c10Case(c *rig.Ctx) {
 			}
 		}
 	}
+	if len(yWrites) > 0 {
+		cw.take(y)
+		for _, yw := range yWrites {
+			res := rig.Classify(cw.logged(y, 0), yw.mc)
+			c.Events(1)
+			switch {
+			case len(res.All) != 1 || res.Replies != 0:
+				cw.fail(when+"/write-of-other-peer-sent-during-the-teardown-not-answered-once", "write %d of peer%d to local server %d, sent while peer%d was torn down (approved by the application: %v): %s; expected exactly one result", yw.mc, y, yw.srv, x, yw.approved, res)
+			case yw.approved && yw.inTime && res.Success != 1:
+				cw.fail(when+"/approval-of-write-of-other-peer-given-during-the-teardown-not-carried-out", "write %d of peer%d to local server %d was approved by the application (before the timeout can have passed) while peer%d was torn down: %s", yw.mc, y, yw.srv, x, res)
+			case !yw.verdict && res.Errors != 1:
+				cw.fail(when+"/pending-approval-of-other-peer-lost", "write %d of peer%d to local server %d (sent while peer%d was torn down, no verdict) must receive the approval timeout; got %s", yw.mc, y, yw.srv, x, res)
+			}
+			if yw.approved && yw.inTime {
+				c.Count("verdicts_for_another_peer's_write_given_during_a_teardown_in_time", 1)
+			}
+		}
+		c.Count("approval_requiring_writes_of_another_peer_sent_during_a_teardown", int64(len(yWrites)))
+	}
+	if overlapMore {
+		c.Count("teardowns_overlapped_by_local_SubscribeToRemote/BindToRemote_calls_towards_another_peer", 1)
+		c.Count("local_SubscribeToRemote/BindToRemote_calls_made_before_the_teardown_returned", repeatedLocal.Load())
+	}
 	cw.compare("horizon-"+kind, x, remEnt)
+
+	// ---- (8) a third of the entity removals: the victim announces the removed entity AGAIN (partial notify 'added' with
+	// its features), takes new subscriptions and a binding from it, local client features subscribe / bind to it again,
+	// and the entity is announced as removed a SECOND time. Exactly the new entries and flags go, one removal event per
+	// new entry and one for the entity; everything else (other entities of the victim, other peers) stays and is served.
+	if kind != "disconnect" && aux5.Intn(3) == 0 && !cw.hard {
+		re := entOf(remEnt)
+		c10Reannounce(X, cw.tree, "added", re)
+		cw.take(x)
+		cw.trace = append(cw.trace, fmt.Sprintf("peer%d announces the removed entity %s AGAIN (partial notify lastStateChange=added with its features)", x, remEnt))
+		if rig.IsNil(X.RD.Entity(spine.NewAddressEntityType(re))) {
+			cw.fail("re-added/entity-not-present", "entity %s of peer%d is not present after it was announced as added again", remEnt, x)
+			return
+		}
+		var again []c10Op
+		for _, sidx := range aux5.Perm(len(cw.srv))[:1+aux5.Intn(3)] {
+			again = append(again, c10Op{kind: "sub", peer: x, ent: re, srv: sidx})
+		}
+		for sidx := range cw.srv {
+			taken := false
+			for _, en := range cw.regs {
+				if en.kind == "bind" && en.srv == sidx {
+					taken = true
+				}
+			}
+			if !taken {
+				again = append(again, c10Op{kind: "bind", peer: x, ent: re, srv: sidx})
+				break
+			}
+		}
+		again = append(again, c10Op{kind: "lsub", peer: x, ent: re, lc: aux5.Intn(len(cw.cli))}, c10Op{kind: "lbind", peer: x, ent: re, lc: aux5.Intn(len(cw.cli))})
+		for _, o := range again {
+			cw.exec(o, "re-added")
+		}
+		if cw.hard {
+			return
+		}
+		cw.compare("re-added", x, "")
+		want2 := map[string]int{"Entity/remove ent=" + remEnt: 1}
+		n2 := 0
+		for k, en := range cw.regs {
+			if en.peer == x && en.ent == remEnt {
+				want2[fmt.Sprintf("%s/remove ent=%s feature=%d local=%s", map[string]string{"sub": "Subscription", "bind": "Binding"}[en.kind], en.ent, en.fid, cw.sf(en.srv).Address().String())]++
+				delete(cw.regs, k)
+				n2++
+			}
+		}
+		for k, en := range cw.flags {
+			if en.peer == x && en.ent == remEnt {
+				delete(cw.flags, k)
+			}
+		}
+		for pi := range cw.peers {
+			cw.take(pi)
+		}
+		w.Core.Take()
+		cw.trace = append(cw.trace, fmt.Sprintf("SECOND TEARDOWN peer%d %s (partial notify); the entity holds %d new entries", x, kind, n2))
+		okT2, pan := rig.Guard(30*time.Second, func() { X.NotifyDiscovery(true, X.Discovery(nil, nil, [][]uint{re})) })
+		if pan != "" {
+			cw.fail("second-"+kind+"/panic", "%s", pan)
+			return
+		}
+		if !okT2 {
+			c.Inconclusive("second teardown did not return within 30s")
+			return
+		}
+		if n := X.PanicCount(); n > 0 {
+			cw.fail("second-"+kind+"/panic", "panic while handling a message: %v", X.Panics)
+			return
+		}
+		for _, ea := range c10Ents {
+			got := X.RD.Entity(spine.NewAddressEntityType(ea))
+			gone := c06Key(ea) == remEnt || extraRem[c06Key(ea)]
+			switch {
+			case gone && !rig.IsNil(got):
+				cw.fail("second-"+kind+"/entity-still-present", "entity %s of peer%d still present after its second removal", c06Key(ea), x)
+			case !gone && rig.IsNil(got):
+				cw.fail("second-"+kind+"/other-entity-of-that-peer-removed", "entity %s of peer%d is gone; it was not announced as removed", c06Key(ea), x)
+			}
+		}
+		cw.compare("second-"+kind, x, remEnt)
+		got2 := map[string]int{}
+		var evl []string
+		for _, ev := range w.Core.Take() {
+			evl = append(evl, ev.String())
+			k := ""
+			switch ev.P.EventType {
+			case api.EventTypeSubscriptionChange, api.EventTypeBindingChange:
+				name := map[api.EventType]string{api.EventTypeSubscriptionChange: "Subscription", api.EventTypeBindingChange: "Binding"}[ev.P.EventType]
+				ent, fid, loc := "?", -1, "?"
+				if !rig.IsNil(ev.P.Entity) && ev.P.Entity.Address() != nil {
+					ent = c06KeyM(ev.P.Entity.Address().Entity)
+				}
+				if !rig.IsNil(ev.P.Feature) && ev.P.Feature.Address() != nil && ev.P.Feature.Address().Feature != nil {
+					fid = int(*ev.P.Feature.Address().Feature)
+				}
+				if !rig.IsNil(ev.P.LocalFeature) {
+					loc = ev.P.LocalFeature.Address().String()
+				}
+				k = fmt.Sprintf("%s/%s ent=%s feature=%d local=%s", name, c10Ch(ev.P.ChangeType), ent, fid, loc)
+			case api.EventTypeEntityChange:
+				ent := "?"
+				if !rig.IsNil(ev.P.Entity) && ev.P.Entity.Address() != nil {
+					ent = c06KeyM(ev.P.Entity.Address().Entity)
+				}
+				k = fmt.Sprintf("Entity/%s ent=%s", c10Ch(ev.P.ChangeType), ent)
+			case api.EventTypeDeviceChange:
+				k = "Device/" + c10Ch(ev.P.ChangeType)
+			default:
+				continue
+			}
+			if ev.P.Ski != X.Ski {
+				k = "OTHER-PEER " + k
+			}
+			got2[k]++
+		}
+		c.Events(int64(len(evl) + 1))
+		for k, n := range want2 {
+			if got2[k] < n {
+				cw.fail("second-"+kind+"/removal-event-missing/"+strings.SplitN(k, " ", 2)[0], "expected %d x %q, observed %d; events: %v", n, k, got2[k], evl)
+			}
+		}
+		for k, n := range got2 {
+			if n > want2[k] {
+				sig := "removal-event-duplicated-or-unexpected/" + strings.SplitN(k, " ", 2)[0]
+				if strings.HasPrefix(k, "OTHER-PEER") {
+					sig = "event-for-other-peer"
+				}
+				cw.fail("second-"+kind+"/"+sig, "observed %d x %q, expected %d; events: %v", n, k, want2[k], evl)
+			}
+		}
+		// everybody else is still served
+		for pi, p := range cw.peers {
+			var ea []uint
+			for _, cand := range c10Ents {
+				if alive(pi, cand) {
+					ea = cand
+					break
+				}
+			}
+			if ea == nil {
+				continue
+			}
+			cw.take(pi)
+			sidx := aux5.Intn(len(cw.srv))
+			fn := c06FnsOf(c10SrvTypes[sidx])[0]
+			mc := p.Send(model.CmdClassifierTypeRead, rig.FA(p.Addr, ea, uint(sidx+1)), cw.srv[sidx].Address(), false, nil, rig.CmdFor(fn.Fn, reflect.New(fn.T).Interface()))
+			c.Events(1)
+			if res := rig.Classify(cw.take(pi), mc); res.Replies != 1 || res.Errors != 0 {
+				cw.fail("second-"+kind+"/read-of-surviving-peer-not-served", "peer%d reads %s from %s: %s", pi, fn.Fn, c06Key(ea), res)
+			}
+		}
+		c.Count("second_teardowns_after_the_removed_entity_was_announced_again", 1)
+		c.Count("entries_removed_by_a_second_teardown", int64(n2))
+	}
 
 	c.Count("teardown:"+kind, 1)
 	if conc {
@@ -1677,7 +2216,7 @@ func c10Case(c *rig.Ctx) {
 			c.Count("teardowns_of_a_peer_that_had_announced_itself_again_while_holding_bindings", 1)
 		}
 	}
-	c.Shape(fmt.Sprintf("%s conc=%v regs=%d flags=%d pendX=%d pendO=%d reannX=%v unk=%s localGone=%d clientGone=%d early=%d", kind, conc, nRegs, nFlags, len(wXent), len(wOther), reannX, unknownPos, nLocalGone, nClientGone, len(earlyOps)))
+	c.Shape(fmt.Sprintf("%s conc=%v regs=%d flags=%d pendX=%d pendO=%d reannX=%v unk=%s localGone=%d clientGone=%d early=%d form=%s n=%d mixed=%d", kind, conc, nRegs, nFlags, len(wXent), len(wOther), reannX, unknownPos, nLocalGone, nClientGone, len(earlyOps), remForm, 1+len(extraRem), nMixed))
 	c.NonTrivial(nRegs > 0 && nFlags > 0 && nTwins > 0)
 	tr := cw.trace
 	if len(tr) > 40 {
